@@ -57,6 +57,10 @@ def check_effects(ctx, fi, self_cls, shared, in_scope_r1):
                     seen.add(id(e.node))
                     ctx.ob("C17.R2", fi, fi.name in R2_FROZEN, "mutation of module/class-level state %s" % r[1], node=e.node)
                     n += 1
+                elif r is not None and r[0] in ("free", "module") and r[1] in ctx.model.module_imports.get(fi.relpath, ()):
+                    seen.add(id(e.node))
+                    ctx.ob("C17.R2", fi, False, "mutation of process-global state reached through module `%s` (%s)" % (r[1], N.show(e["base"])), node=e.node)
+                    n += 1
             elif e.kind in ("GLOBALDECL", "GLOBALWRITE"):
                 seen.add(id(e.node))
                 ctx.ob("C17.R2", fi, fi.name in R2_FROZEN, "`global` rebinding of %s" % (e["names"] if e.kind == "GLOBALDECL" else e["name"],), node=e.node)
@@ -132,7 +136,7 @@ def run(ctx):
     # positive control
     from ..core import Ctx
     ctl = control_model(
-        "TABLE = {}\n"
+        "import sys\nTABLE = {}\n"
         "class Construct(object):\n    pass\n"
         "class X(Construct):\n"
         "    memo = {}\n"
@@ -141,10 +145,11 @@ def run(ctx):
         "        self.cache[path] = 1\n"
         "        X.memo[path] = 2\n"
         "        TABLE.update(a=1)\n"
+        "        sys.modules[path] = self\n"
         "        return 0\n")
     c2 = Ctx("C17", ctx.tier, ctl.root, model=ctl)
     fi = ctl.method("X", "_parse")
     check_effects(c2, fi, "X", module_names(ctl), True)
     bad = [o.rule for o in c2.obligations if not o.ok]
     ctx.control("C17.R1", bad.count("C17.R1") == 2)
-    ctx.control("C17.R2", bad.count("C17.R2") == 2)
+    ctx.control("C17.R2", bad.count("C17.R2") == 3)
